@@ -487,7 +487,7 @@ int main(int argc, char **argv) {
                         g_file[h]->fileHdr->headerKey);
         }
         else if (IS("read")) {             /* read h n */
-            int h = (int)I(1); uint32_t cnt = (uint32_t)strtoul(a[2], NULL, 10);
+            int h = (int)I(1); if (h < 0 || h >= MAXFILE || !g_file[h]) { printf("= no-such-handle\n.\n"); fflush(stdout); continue; } uint32_t cnt = (uint32_t)strtoul(a[2], NULL, 10);
             /* the buffer is sized by what can legitimately be returned, plus slack */
             uint32_t cap2 = cnt; uint32_t sz = adfFileGetSize(g_file[h]);
             if (cap2 > sz + 1024) cap2 = sz + 1024;
@@ -500,7 +500,7 @@ int main(int argc, char **argv) {
             free(b);
         }
         else if (IS("write")) {            /* write h n seed */
-            int h = (int)I(1); uint32_t cnt = (uint32_t)strtoul(a[2], NULL, 10); uint32_t seed = (uint32_t)strtoul(a[3], NULL, 10);
+            int h = (int)I(1); if (h < 0 || h >= MAXFILE || !g_file[h]) { printf("= no-such-handle\n.\n"); fflush(stdout); continue; } uint32_t cnt = (uint32_t)strtoul(a[2], NULL, 10); uint32_t seed = (uint32_t)strtoul(a[3], NULL, 10);
             uint8_t *b = malloc(cnt ? cnt : 1);
             for (uint32_t i = 0; i < cnt; i++) b[i] = gen_byte(seed, i);
             g_inlib = 1; uint32_t r = adfFileWrite(g_file[h], cnt, b); g_inlib = 0;
@@ -508,27 +508,27 @@ int main(int argc, char **argv) {
             free(b);
         }
         else if (IS("seek")) {
-            int h = (int)I(1);
+            int h = (int)I(1); if (h < 0 || h >= MAXFILE || !g_file[h]) { printf("= no-such-handle\n.\n"); fflush(stdout); continue; }
             g_inlib = 1; RETCODE rc = adfFileSeek(g_file[h], (uint32_t)strtoul(a[2], NULL, 10)); g_inlib = 0;
             printf("= rc=%d pos=%u size=%u eof=%d\n", rc, adfFileGetPos(g_file[h]), adfFileGetSize(g_file[h]), adfEndOfFile(g_file[h]));
         }
         else if (IS("trunc")) {
-            int h = (int)I(1);
+            int h = (int)I(1); if (h < 0 || h >= MAXFILE || !g_file[h]) { printf("= no-such-handle\n.\n"); fflush(stdout); continue; }
             g_inlib = 1; RETCODE rc = adfFileTruncate(g_file[h], (uint32_t)strtoul(a[2], NULL, 10)); g_inlib = 0;
             printf("= rc=%d pos=%u size=%u eof=%d\n", rc, adfFileGetPos(g_file[h]), adfFileGetSize(g_file[h]), adfEndOfFile(g_file[h]));
         }
         else if (IS("flush")) {
-            int h = (int)I(1);
+            int h = (int)I(1); if (h < 0 || h >= MAXFILE || !g_file[h]) { printf("= no-such-handle\n.\n"); fflush(stdout); continue; }
             g_inlib = 1; RETCODE rc = adfFileFlush(g_file[h]); g_inlib = 0;
             printf("= rc=%d\n", rc);
         }
         else if (IS("close")) {
-            int h = (int)I(1);
+            int h = (int)I(1); if (h < 0 || h >= MAXFILE || !g_file[h]) { printf("= no-such-handle\n.\n"); fflush(stdout); continue; }
             g_inlib = 1; adfFileClose(g_file[h]); g_inlib = 0; g_file[h] = NULL;
             printf("= ok\n");
         }
         else if (IS("stat")) {
-            int h = (int)I(1); struct AdfFile *f = g_file[h];
+            int h = (int)I(1); if (h < 0 || h >= MAXFILE || !g_file[h]) { printf("= no-such-handle\n.\n"); fflush(stdout); continue; } struct AdfFile *f = g_file[h];
             printf("= pos=%u size=%u eof=%d nblk=%u cur=%d pidb=%u pieb=%u\n", adfFileGetPos(f), adfFileGetSize(f),
                    adfEndOfFile(f), f->nDataBlock, f->curDataPtr, f->posInDataBlk, f->posInExtBlk);
         }
